@@ -232,7 +232,7 @@ func keyParts(key string) (rule, fn, kind string, hasAt, ok bool) {
 // budgetMatches: a reviewed entry is about an obligation of one function; its key carries the
 // expression text, which a behaviour-preserving edit (renamed field or local, hoisted
 // sub-expression, renamed function) changes. An obligation that no entry matches may therefore
-// take over an entry that matched nothing in this run when it belongs to the same function (or
+// take over an entry of the same kind that matched nothing in this run when it belongs to the same function (or
 // the entry's function no longer exists and the kind is the same) and agrees on being a
 // caller-side requirement or not. One entry covers one obligation: an additional unproved
 // obligation in the function finds no free entry and is reported.
@@ -270,7 +270,7 @@ func (r *Result) budgetMatches(t *Tables, used map[string]bool, open []int) map[
 			if eAt != hasAt && !extracted {
 				continue
 			}
-			if efn == fn || (!live[efn] && ekind == kind) || extracted {
+			if (efn == fn && ekind == kind) || (!live[efn] && ekind == kind) || extracted {
 				taken[e.Key] = true
 				out[i] = e
 				break
